@@ -80,21 +80,10 @@ def abstract_arith(exprs):
     return [go(e) for e in exprs]
 
 
-def run_z3_tracked(ob, timeout_ms=4000):
-    """the same formulas asserted as tracked literals (assert_and_track): z3 then skips the equation-solving preprocessing
-    that substitutes purified names back into Concat / If terms; observed to turn timeouts into immediate `unsat`"""
-    t = time.time()
-    try:
-        s = z3.Solver()
-        s.set("timeout", timeout_ms)
-        s.set(unsat_core=True)
-        for i, h in enumerate(ob.hyps):
-            s.assert_and_track(h, f"h!{i}")
-        s.assert_and_track(z3.Not(ob.goal), "goal!")
-        r = s.check()
-    except z3.Z3Exception:
-        return "unknown", time.time() - t
-    return ("unsat" if r == z3.unsat else "unknown"), time.time() - t
+# NOTE: a stage that asserted the same formulas as tracked literals (assert_and_track / unsat-core mode) was removed: on
+# sequence formulas z3 5.1.0 answered `unsat` in that mode for a set of three formulas that cvc5 shows satisfiable (and
+# plain z3 leaves unknown) - found when a deliberately broken seal_file_path still "verified".  No answer of that mode is
+# trusted any more.
 
 
 def _symbols(e, cache):
@@ -230,18 +219,27 @@ def discharge(ob, both=False, use_cvc5=True):
     r, dt, model, reason = run_z3(ob, first_ms)
     ob.time = dt
     tried = ["z3"]
-    if r == "unknown" and h and "z3" not in h["backends"] and use_cvc5 and "cvc5" in h["backends"]:
-        r2, dt2, why = run_cvc5(ob, max(CVC5_TIMEOUT_S, int(8 * h["max_time"]) + 5))
-        ob.time += dt2
-        if r2 == "unsat":
-            ob.verdict, ob.backend = "discharged", "cvc5"
-            return ob
+    if r == "unknown" and h:
+        # the stages that discharged obligations of this name before go first, each with a budget of a few times what it needed
+        # (names repeat across paths, so several stages may be listed); every budget is capped
+        pb = h.get("per_backend", {})
+
+        def budget(name, lo, hi):
+            return int(min(hi, max(lo, 4000 * pb.get(name, 0.0) + 2000)))
+
+        if "z3-relevant-hypotheses" in pb:
+            rr_, dtr = run_z3_relevant(ob, budget("z3-relevant-hypotheses", 4000, 20000))
+            ob.time += dtr
+            if rr_ == "unsat":
+                ob.verdict, ob.backend = "discharged", "z3-relevant-hypotheses"
+                return ob
+        if use_cvc5 and "cvc5" in pb:
+            r2, dt2, why = run_cvc5(ob, int(min(45, max(CVC5_TIMEOUT_S, 3 * pb["cvc5"] + 5))))
+            ob.time += dt2
+            if r2 == "unsat":
+                ob.verdict, ob.backend = "discharged", "cvc5"
+                return ob
     if r == "unknown":
-        rt, dtt = run_z3_tracked(ob)
-        ob.time += dtt
-        if rt == "unsat":
-            ob.verdict, ob.backend = "discharged", "z3-tracked"
-            return ob
         rr_, dtr = run_z3_relevant(ob)
         ob.time += dtr
         if rr_ == "unsat":
